@@ -35,12 +35,10 @@ META = dict(
     design_ref="DESIGN.md section 4 C15",
 )
 
-OBLIGATIONS_FULL = [
+OBLIGATIONS = [
     "C15_topological", "C15_exact", "C15_refuses", "C15_accepts", "C15_error_meaning", "C15_no_model_artefact",
     "C15_deterministic", "C15_set_order_irrelevant", "C15_direct_children", "C15_shipped_graphs",
 ]
-
-OBLIGATIONS = ["C15_deterministic", "C15_shipped_graphs"]
 
 HDR = "From Coq Require Import List.\nFrom Leaspy Require Import Dag.DagModel.\nImport ListNotations.\n"
 HASH_SEEDS = ("0", "1", "20260926")
